@@ -73,8 +73,14 @@ def check_case(case, stats=None):
                 return
             before = drive.typed(life.projection())
             trans = drive.transient(life.gw)
-            life.stop()
-            loaded = persist.Lifetime(fake, version, path)
+            try:
+                life.stop()
+            except Exception as exc:  # pylint: disable=broad-except
+                raise Violation(f"save_raises.{ext}.{type(exc).__name__}", case, f"{ext}: stop() could not save a reachable state: {type(exc).__name__}: {exc}") from exc
+            try:
+                loaded = persist.Lifetime(fake, version, path)
+            except Exception as exc:  # pylint: disable=broad-except
+                raise Violation(f"load_raises.{ext}.{type(exc).__name__}", case, f"{ext}: loading what stop() saved raised {type(exc).__name__}: {exc}") from exc
             after = drive.typed(loaded.projection())
             if after != before:
                 raise Violation(
